@@ -21,6 +21,10 @@ int64_t clock_get();
 void    rd_set(const uint32_t* vals, size_t n); // copies; rewinds the stream
 void    rd_rewind();
 uint64_t clock_reads();
+// Fault: while armed (per_read_ns != 0) the clock moves on by per_read_ns with every read, as a real clock
+// does between two reads inside one call; the first read after arming returns the set instant.
+void     clock_drift(int64_t per_read_ns);
+uint64_t clock_drift_reads();
 uint64_t rd_reads();
 
 // ------------------------------------------------------------- scheduler ----
@@ -112,6 +116,7 @@ uint32_t       susp_fired();      // preemptions taken there
 uint32_t       shared_seen();     // basic blocks executed while holding the container's lock shared
 uint32_t       shared_fired();
 uint32_t       spin_yields();     // forced yields of a client that was busy-waiting inside one call
+uint32_t       bad_unlocks();     // releases of the container's lock by a client that did not hold it
 uint32_t       relock_fired();    // calls that re-acquired the container's lock and were stalled there
 uint32_t       fine_fired();      // basic-block preemptions taken
 uint32_t       fine_seen();       // basic blocks executed by clients inside calls while holding no lock
